@@ -2,7 +2,7 @@
 from checks import symgen, refqr, refmicro, refrmqr
 
 ID = 'C03'
-PROP_MODULES = ['QRV.Props.C03', 'QRV.Props.C03QR', 'QRV.Props.C03Micro', 'QRV.Props.C03RMQR', 'QRV.Props.C03Conformant', 'QRV.Props.C03Format']
+PROP_MODULES = ['QRV.Props.C03', 'QRV.Props.C03QR', 'QRV.Props.C03Micro', 'QRV.Props.C03RMQR', 'QRV.Props.C03Conformant', 'QRV.Props.C03Format', 'QRV.Props.C03FormatExt']
 RULE = ('for every (version, level) pair of the three symbologies: a clean symbol (from the implementation, and - QR and Micro QR - from the independent reference encoder) is damaged '
         'in at most the rated number of codewords per Reed-Solomon block (t_b = floor((parity - p)/2) as tabulated in the standard; for QR blocks computed from the compact table, '
         'Micro QR 0/1/2/2/4/3/5/7, rMQR from the regenerated table), positions among data and parity codewords (first, last, random), a non-empty subset of the 8 modules of each '
@@ -15,13 +15,13 @@ TRUSTED = [
 ]
 ASSUMPTIONS = []
 PARTIAL = ('QR: whole-symbol correction is a theorem (C03QR.qr_corrects_rated_damage: any bitmap with the clean function modules whose data modules carry blocks within the rated distance of the conformant blocks decodes to the original description; with zero damage: a conformant symbol of any other encoder). '
-           'Micro QR: the same whole-symbol theorem (C03Micro.micro_corrects_rated_damage, one block, M1 rated 0). rMQR: the same (C03RMQR.rmqr_corrects_rated_damage); in the 11 versions whose walk is short (finding D18) the last block has one codeword of room below floor(parity/2), kernel-evaluated, which the incompletely carried last codeword consumes')
+           'Micro QR: the same whole-symbol theorem (C03Micro.micro_corrects_rated_damage, one block, M1 rated 0). rMQR: the same (C03RMQR.rmqr_corrects_rated_damage); in the 11 versions whose walk is short (finding D18) the last block has one codeword of room below floor(parity/2), kernel-evaluated, which the incompletely carried last codeword consumes. The clause that the format information only has to stay readable is a theorem too (C03Format / C03FormatExt: *_corrects_rated_damage_and_format_damage - format copies within two modules of the clean ones in the order the decoder consults them, NO hypothesis on any other function module)')
 MANIFEST = {
     'technique': 'Lean 4: RS decoder completeness for every parity length (C14.dec_complete) instantiated with each block\'s parity length; for QR lifted to whole damaged bitmaps through placement, masking, de-interleaving and parsing (qr_corrects_rated_damage); whole-symbol damage by differential runs for all three symbologies',
     'text': ('The per-block statement is a theorem: every word within floor(parity/2) >= t_b of a codeword is restored (C14Complete), and Props/C03.lean proves that every block of every '
              '(version, level) row asks the decoder for exactly its parity length and that the rated capacity never exceeds floor(parity/2). Props/C03QR.lean lifts this to whole QR symbols: any bitmap that keeps the clean '
              'symbol\'s function modules and whose data modules carry, along the standard walk under the symbol\'s mask and interleaving, blocks that each differ from the conformant block in at most the rated number of codewords '
-             'decodes to the original description (zero damage = a conformant symbol from any encoder, remainder bits arbitrary). Props/C03Micro.lean proves the same for Micro QR (single block; the stream bits of the 4-bit final codeword of M1/M3 that no module carries must be zero). Props/C03RMQR.lean proves it for rMQR, including the 11 versions whose last codeword no bitmap carries completely (the rated capacity of their last block + 1 <= floor(parity/2): kernel-evaluated over the regenerated rows, with shortness computed from the walk). Props/C03Conformant.lean states the zero-damage case against the declarative symbols: ANY regular bitmap whose pixels are the standard symbol of a valid description (Spec.Symbol.*.IsSymbol) decodes to that description - QR, Micro QR and rMQR (every version, although the library itself does not emit the standard symbol in 11 of them). All three are also exercised on every configuration with damage up to the rated capacity in every block, on implementation and model.'),
+             'decodes to the original description (zero damage = a conformant symbol from any encoder, remainder bits arbitrary). Props/C03Micro.lean proves the same for Micro QR (single block; the stream bits of the 4-bit final codeword of M1/M3 that no module carries must be zero). Props/C03RMQR.lean proves it for rMQR, including the 11 versions whose last codeword no bitmap carries completely (the rated capacity of their last block + 1 <= floor(parity/2): kernel-evaluated over the regenerated rows, with shortness computed from the walk). Props/C03Format.lean and C03FormatExt.lean drop the hypothesis on the function modules altogether: it is enough that the format information read from the damaged bitmap is within two modules of the clean symbol\'s (first copy; or first copy rejected and second copy within two) - the decoders read no other function module. Props/C03Conformant.lean states the zero-damage case against the declarative symbols: ANY regular bitmap whose pixels are the standard symbol of a valid description (Spec.Symbol.*.IsSymbol) decodes to that description - QR, Micro QR and rMQR (every version, although the library itself does not emit the standard symbol in 11 of them). All three are also exercised on every configuration with damage up to the rated capacity in every block, on implementation and model.'),
     'note': 'Trusted: Lean kernel + Mathlib (C14Complete); symbol models tied by correspondence; codeword-to-module maps of the python reference.',
 }
 
